@@ -55,20 +55,33 @@ class Readers:
         self.ctx = ctx
         self.st = struct_table(ctx)
         self.unit = ctx.repo.unit('tx')
-        self.prims = {}      # read_le_* function name -> (struct var, declared width, Func)
+        self.prims = {}      # read_* function name -> (struct var or None, declared width, Func, unpack call or None)
         for key, f in ctx.repo.funcs.items():
             if f.unit is not self.unit or f.parent is not None or f.cls is not None:
                 continue
+            if not f.name.startswith('read_') or f.name in ('read_varint', 'read_varbytes', 'read_many', 'read_tx',
+                                                            'read_input', 'read_output'):
+                continue
+            rets = [n for n in f.own_nodes() if isinstance(n, ast.Return)]
+            width = None
+            if len(rets) == 1 and isinstance(rets[0].value, ast.Tuple) and len(rets[0].value.elts) == 2:
+                adv = rets[0].value.elts[1]
+                if isinstance(adv, ast.BinOp) and isinstance(adv.op, ast.Add):
+                    width = const_value(adv.right) if isinstance(adv.left, ast.Name) else const_value(adv.left)
+                elif isinstance(adv, ast.Name):
+                    # end = cursor + K
+                    for s_ in f.node.body:
+                        if isinstance(s_, ast.Assign) and norm(s_.targets[0]) == adv.id and isinstance(s_.value, ast.BinOp) \
+                                and isinstance(s_.value.op, ast.Add):
+                            width = const_value(s_.value.right) if isinstance(s_.value.left, ast.Name) else const_value(s_.value.left)
+            if width is None:
+                continue
             calls = [c for c in q.own_calls(f) if isinstance(c.func, ast.Name) and c.func.id in self.st
                      and self.st[c.func.id][2] == 'unpack_from']
-            if calls and f.name.startswith('read_') and f.name not in ('read_varint',):
-                rets = [n for n in f.own_nodes() if isinstance(n, ast.Return)]
-                width = None
-                if len(rets) == 1 and isinstance(rets[0].value, ast.Tuple) and len(rets[0].value.elts) == 2:
-                    adv = rets[0].value.elts[1]
-                    if isinstance(adv, ast.BinOp) and isinstance(adv.op, ast.Add):
-                        width = const_value(adv.right) if isinstance(adv.left, ast.Name) else const_value(adv.left)
+            if calls:
                 self.prims[f.name] = (self.st[calls[0].func.id][0], width, f, calls[0])
+            else:
+                self.prims[f.name] = (None, width, f, None)
 
     def tokens(self, f, depth=0):
         '''Linear token list of a straight-line reader: [(kind, detail, bound var)], plus the
@@ -89,7 +102,8 @@ class Readers:
                 if callee is None:
                     raise AnalysisError(f'{f.key}: cannot resolve reader call {norm(s.value)}')
                 if callee.name in self.prims:
-                    toks.append(('struct', self.prims[callee.name][0], var))
+                    sv = self.prims[callee.name][0]
+                    toks.append(('struct', sv, var) if sv else ('fixed-nonraising', self.prims[callee.name][1], var))
                 elif callee.name == 'read_varint':
                     toks.append(('varint', None, var))
                 elif callee.name == 'read_varbytes':
@@ -251,11 +265,11 @@ def rule_varint(ctx, rd):
             elif isinstance(s.test.ops[0], ast.Eq) and ret is not None and isinstance(ret.value, ast.Call):
                 nm = norm(ret.value.func)
                 if nm in rd.prims:
-                    rmap[k] = rd.prims[nm][0]
+                    rmap[k] = rd.prims[nm][0] or f'non-struct {nm}'
         elif isinstance(s, ast.Return) and isinstance(s.value, ast.Call):
             nm = norm(s.value.func)
             if nm in rd.prims:
-                rmap['else'] = rd.prims[nm][0]
+                rmap['else'] = rd.prims[nm][0] or f'non-struct {nm}'
     # writer: `if n < T: return pack_byte(n)`; `if n < B: return pack_byte(K) + pack_le_uintW(n)`; final
     wmap, wdirect, bounds = {}, None, {}
     for s in pv.node.body:
@@ -304,6 +318,12 @@ def rule_varint(ctx, rd):
 def rule_width(ctx, rd):
     n = 0
     for name, (sv, width, f, call) in sorted(rd.prims.items()):
+        n += 1
+        if sv is None:
+            ctx.bad('C13.WIDTH', ctx.key(f, None, 'advance'),
+                    f'{name} does not unpack with a struct at the cursor: on a short buffer it returns a value instead of raising '
+                    '(a truncated transaction can then be parsed)', loc=ctx.loc(f, f.node))
+            continue
         fmt = [v[1] for v in rd.st.values() if v[0] == sv][0]
         size = fmt_size(fmt)
         args_ok = len(call.args) == 2 and norm(call.args[0]) == f.params[0] and norm(call.args[1]) == f.params[1]
@@ -311,7 +331,6 @@ def rule_width(ctx, rd):
                   f'unpacks {fmt!r} at the cursor and advances by {size}',
                   f'advances by {width} but unpacks {fmt!r} ({size} bytes), or reads at another offset ({norm(call)})',
                   loc=ctx.loc(f, f.node))
-        n += 1
     return n
 
 
@@ -767,11 +786,10 @@ def run(ctx):
     rd = Readers(ctx)
     if len(rd.prims) < 5:
         raise AnalysisError('fewer than 5 fixed-width readers found in lib/tx.py')
-    n = compare_codec(ctx, rd, ctx.func('tx', 'read_tx'), 'Tx')
-    ctx.floor('C13.CODEC', 3, n)
-    ctx.floor('C13.VARINT', 4, rule_varint(ctx, rd))
-    ctx.floor('C13.WIDTH', 5, rule_width(ctx, rd))
-    ctx.floor('C13.TRUNC', 3, rule_trunc(ctx, rd))
-    ctx.floor('C13.chunk-loops', 16, rule_chunk_loops(ctx, rd))
-    ctx.floor('C13.HASHSPAN', 2, rule_hashspan(ctx))
-    ctx.floor('C13.REVERSE', 3, rule_reverse(ctx))
+    ctx.rule('C13.CODEC', lambda: compare_codec(ctx, rd, ctx.func('tx', 'read_tx'), 'Tx'), 3)
+    ctx.rule('C13.VARINT', lambda: rule_varint(ctx, rd), 4)
+    ctx.rule('C13.WIDTH', lambda: rule_width(ctx, rd), 5)
+    ctx.rule('C13.TRUNC', lambda: rule_trunc(ctx, rd), 3)
+    ctx.rule('C13.chunk-loops', lambda: rule_chunk_loops(ctx, rd), 16)
+    ctx.rule('C13.HASHSPAN', lambda: rule_hashspan(ctx), 2)
+    ctx.rule('C13.REVERSE', lambda: rule_reverse(ctx), 3)
